@@ -378,6 +378,31 @@ def _iterlist(x):
     return list(iter(x))
 
 
+def _it_step(it, keys_only):
+    try:
+        v = to_plain(next(it))
+    except StopIteration:
+        return ["stop"]
+    except Exception as e:  # noqa: BLE001 - e.g. RuntimeError: dictionary changed size during iteration
+        return ["exc", type(e).__name__]
+    return ["v"] if keys_only else ["v", v]
+
+
+def _iter_mut(side):
+    """A live iterator over the container, advanced k1 times, then a mutator on the same container, then k2 more
+    steps: every step's outcome (value / exhausted / exception class) and the mutator's are the result. For dicts
+    only the shape of each step is recorded (the order of keys is not part of what is compared)."""
+    def run(n, rev, k1, mop, margs, k2):
+        keys_only = isinstance(n, Mapping)
+        it = reversed(n) if rev else iter(n)
+        out = [_it_step(it, keys_only) for _ in range(k1)]
+        r = _call(OPS[mop][side], n, *margs)
+        out.append(["mut", "ok" if r.kind == "ret" else "exc:" + type(r.exc).__name__])
+        out += [_it_step(it, keys_only) for _ in range(k2)]
+        return out
+    return run
+
+
 # name -> (sut callable, model callable, mutating?, result mode)
 # result modes: value | none | unordered | self | popitem | repr | bool
 OPS = {
@@ -397,6 +422,7 @@ OPS = {
     "iadd": (lambda n, it: operator.iadd(n, it), _m_iadd, True, "self"),
     "remove": (lambda n, v: n.remove(v), lambda m, v: m.remove(norm(v)), True, "none"),
     "reverse": (lambda n: n.reverse(), lambda m: m.reverse(), True, "none"),
+    "iter_mut": (_iter_mut(0), _iter_mut(1), True, "value"),
     # ---- reads
     "getitem": (lambda n, k: n[k], lambda m, k: m[k], False, "value"),
     "get": (lambda n, *a: n.get(*a), lambda m, *a: m.get(*a), False, "value"),
